@@ -662,7 +662,31 @@ def array_arguments(run):
             snap = f.copy()
             run.case({"api": "compute_poc", "method": meth}, kind="array")
             for rd in (False, True):
-                poc.compute_poc(f, meth, ret_details=rd)
+                ret = poc.compute_poc(f, meth, ret_details=rd)
+                if rd:
+                    # nothing that is handed back may share memory with the
+                    # caller's array (an edit on either side would reach the
+                    # other)
+                    shared = []
+
+                    def walk(o, path):
+                        if isinstance(o, np.ndarray):
+                            if np.shares_memory(o, f):
+                                shared.append(path)
+                        elif isinstance(o, dict):
+                            for kk, vv in o.items():
+                                walk(vv, f"{path}[{kk!r}]")
+                        elif isinstance(o, (list, tuple)):
+                            for ii, vv in enumerate(o):
+                                walk(vv, f"{path}[{ii}]")
+                    walk(ret, "result")
+                    if shared:
+                        run.failing(SITE, f"compute_poc|{meth}|alias",
+                                    f"compute_poc({meth}, ret_details=True): "
+                                    f"{shared[0]} shares memory with the "
+                                    "caller's force array",
+                                    payload={"kind": "rerun"},
+                                    theorem="C10_separation")
                 if f.tobytes() != snap.tobytes():
                     run.failing(SITE, f"compute_poc|{meth}|mutated",
                                 f"compute_poc({meth}) modified the force "
@@ -670,6 +694,33 @@ def array_arguments(run):
                                                   "api": "compute_poc",
                                                   "method": meth},
                                 theorem="C10_no_mutation")
+        # the details returned by apply_preprocessing(ret_details=True) are
+        # the caller's: editing them must not reach the curve
+        idnt = curve(9)
+        det = idnt.apply_preprocessing(list(PIPE), ret_details=True)
+        before = outcome(idnt)
+        run.case({"api": "apply_preprocessing(ret_details)"}, kind="array")
+
+        def scale(o):
+            if isinstance(o, np.ndarray) and o.dtype.kind == "f" \
+                    and o.flags.writeable:
+                o *= 1e9
+            elif isinstance(o, dict):
+                for vv in o.values():
+                    scale(vv)
+            elif isinstance(o, (list, tuple)):
+                for vv in o:
+                    scale(vv)
+        try:
+            scale(det)
+        except BaseException:
+            pass
+        d = diff(before, outcome(idnt))
+        if d:
+            run.failing(SITE, "apply_preprocessing|details|alias",
+                        "editing the details returned by apply_preprocessing("
+                        f"ret_details=True) in place changed the curve ({d})",
+                        payload={"kind": "rerun"}, theorem="C10_separation")
         for key in sorted(model.models_available):
             md = model.models_available[key]
             p = md.get_parameter_defaults()
